@@ -22,12 +22,12 @@ INCS := -I$(REPO)/SparseGrids -I$(BROOT)/config -I$(REPO)/InterfaceTPL -I$(REPO)
 # the guard is defined for completeness: no source hook exists in the repository (MANIFEST.hooks)
 COMMON := -std=c++11 -g -fno-omit-frame-pointer -DTASMANIAN_VERIF -w
 
-FLAGS_asan  := -O1 -fsanitize=address,undefined -fno-sanitize-recover=undefined
+FLAGS_asan  := -O1 -fsanitize=address,undefined -fno-sanitize=null -fno-sanitize-recover=undefined
 FLAGS_plain := -O2
-FLAGS_omp   := -O1 -fopenmp -fsanitize=address,undefined -fno-sanitize-recover=undefined
+FLAGS_omp   := -O1 -fopenmp -fsanitize=address,undefined -fno-sanitize=null -fno-sanitize-recover=undefined
 FLAGS_ompt  := -O1 -fopenmp -fsanitize=thread
 FLAGS_tsan  := -O1 -fsanitize=thread
-FLAGS_inst  := -O1 -fsanitize=address,undefined -fno-sanitize-recover=undefined -finstrument-functions \
+FLAGS_inst  := -O1 -fsanitize=address,undefined -fno-sanitize=null -fno-sanitize-recover=undefined -finstrument-functions \
                -finstrument-functions-exclude-file-list=/usr/include,/usr/lib,engines/
 LDFLAGS_asan  := -fsanitize=address,undefined
 LDFLAGS_plain :=
@@ -75,9 +75,15 @@ $(B)/libtsg.a: $(LIBOBJ)
 lib: $(B)/libtsg.a
 
 # tasgrid executable (C16) -------------------------------------------------------------------
-$(B)/bin/tasgrid: $(REPO)/Tasgrid/tasgrid_main.cpp $(B)/libtsg.a
-	@mkdir -p $(B)/bin $(B)/h
-	$(CXX) $(CXXFLAGS) -MMD -MP -MF $(B)/h/tasgrid.d -MT $@ $< $(B)/libtsg.a $(LDFLAGS) -o $@
+TGSRC := $(REPO)/Tasgrid/tasgrid_main.cpp $(REPO)/SparseGrids/gridtestExternalTests.cpp $(REPO)/SparseGrids/gridtestTestFunctions.cpp
+TGOBJ := $(patsubst %.cpp,$(B)/tg/%.o,$(notdir $(TGSRC)))
+vpath %.cpp $(REPO)/Tasgrid
+$(B)/tg/%.o: %.cpp $(BROOT)/config/TasmanianConfig.hpp $(BROOT)/config/tasgridLogs.hpp
+	@mkdir -p $(B)/tg
+	$(CXX) $(CXXFLAGS) -MMD -MP -c $< -o $@
+$(B)/bin/tasgrid: $(TGOBJ) $(B)/libtsg.a
+	@mkdir -p $(B)/bin
+	$(CXX) $(CXXFLAGS) $(TGOBJ) $(B)/libtsg.a $(LDFLAGS) -o $@
 
 # harnesses: engines/<dir>/<name>.cpp (+ optional engines/<dir>/<name>.flags with extra flags/sources) -----
 HSRC = $(firstword $(wildcard engines/*/$(1).cpp))
@@ -94,7 +100,7 @@ ifneq ($(H),)
 harness: config $(B)/bin/$(H)
 endif
 
--include $(wildcard $(B)/lib/*.d) $(wildcard $(B)/h/*.d)
+-include $(wildcard $(B)/lib/*.d) $(wildcard $(B)/h/*.d) $(wildcard $(B)/tg/*.d)
 
 # setup: pre-build what the quick checks need (each check rebuilds incrementally anyway)
 setup:
